@@ -274,6 +274,10 @@ def check_concurrent(case):
             raise Violation('unframe of stream %d (of %d concurrent ones) failed' % (k, len(rs_)), result=r.brief(), **ctx)
         if r.items != wanted[k]:
             raise Violation('stream %d unframed concurrently with others differs from its items' % k, expected=wanted[k], got=r.items, **ctx)
+    # ONE piped observable with two subscribers alive at once: each subscription has its own carry-over buffer
+    for n, r in enumerate(drive.two_subscribers(chunk_lists[0], fresh(0))):
+        if r.error is not None or r.raised is not None or r.completed != 1 or r.items != wanted[0]:
+            raise Violation('subscriber %d of one piped unframe observable differs from its items' % n, expected=wanted[0], result=r.brief(), **ctx)
     return {'nontrivial': sum(1 for w in wanted if len(w) >= 2) >= 2, 'labels': [kind, 'shared-op' if case['shared_op'] else 'own-op']}
 
 
